@@ -163,6 +163,9 @@ class Sim:
     def task(self, env, t):
         return self.w.tasks[env[t - 1000] if t >= 1000 else t]
 
+    def fut(self, env, f):
+        return self.w.futures[env[f - 1000] if f >= 1000 else f]
+
     def query_code(self):
         from asynkit.scheduling import runnable_tasks, blocked_tasks
         try:
@@ -232,6 +235,10 @@ class Sim:
             pass
         elif k == "query":
             self.log.append([self.who(), self.query_code()])
+        elif k == "cancelaw":
+            self.fut(env, op[1]).cancel()
+        elif k == "callsooncancel":
+            self.loop.call_soon(self.task(env, op[1]).cancel)
         elif k == "callsoonquery":
             self.loop.call_soon(lambda: self.log.append([self.who(), self.query_code()]))
         else:
@@ -248,7 +255,7 @@ class Sim:
         elif k == "sleep":
             await asyncio.sleep(float(fr(op[1])))
         elif k == "awaitfut":
-            await w.futures[op[1]]
+            await self.fut(env, op[1])
         elif k == "awaittask":
             await self.task(env, op[1])
         elif k == "eventwait":
@@ -320,6 +327,12 @@ class Sim:
                 elif how[0] == "start":
                     from asynkit.scheduling import create_task_start
                     t = await create_task_start(self.run_task(s[2]))
+                elif how[0] == "eager":
+                    import asynkit
+                    aw = asynkit.eager(self.run_task(s[2]))
+                    env = env + [self.w.fid(aw)]
+                    s = s[3]
+                    continue
                 else:
                     t = self.spawn_sync(how, s[2])
                 env = env + [self.w.tid(t)]
@@ -368,6 +381,15 @@ class Sim:
             w.vnow = float(Fraction(w.vnow) + fr(a[1]))
         elif k == "spawn":
             self.spawn_sync(a[1], a[2])
+        elif k == "do" and a[1][0] == "query":
+            # from outside, while the loop is stopped: no running loop at all
+            asyncio.events._set_running_loop(None)
+            try:
+                self.log.append([0, self.query_code()])
+            except BaseException as e:
+                self.log.append([0, -3])
+            finally:
+                asyncio.events._set_running_loop(self.loop)
         elif k == "do":
             try:
                 if not self.sync_op(a[1], []):
@@ -561,12 +583,14 @@ def coq_op(op):
         "self": lambda: "OSelf",
         "query": lambda: "OQuery",
         "callsoonquery": lambda: "OCallSoonQuery",
+        "callsooncancel": lambda: f"OCallSoonCancel {n(op[1])}",
+        "cancelaw": lambda: f"OCancelAw {n(op[1])}",
     }
     return "(" + table[k]() + ")"
 
 
 def coq_how(h):
-    return {"plain": "SPlain", "py": "SPy", "descend": "SDescend", "start": "SStart"}.get(h[0]) \
+    return {"plain": "SPlain", "py": "SPy", "descend": "SDescend", "start": "SStart", "eager": "SEager"}.get(h[0]) \
         or f"(SPrio {L.q(fr(h[1]))})"
 
 
